@@ -51,7 +51,16 @@ class Fam(core.Family):
     procs = 16
 
     def execute(self, inp):
-        w = World(inp['parent'], inp['thr'], inp['report'], inp['gt'])
+        w = World(inp.get('parent_before', inp['parent']), inp['thr'], inp['report'], inp['gt'])
+        if 'parent_before' in inp:
+            # the taxonomy is edited between two classifications: walk every lineage first, then re-parent to inp['parent']
+            run_one(w, inp['d'] if inp['op'] == 'one' else [inp['ds'][0]], 'classify')
+            for t in w.taxa:
+                list(t.ancestors(incself=True)); t.lineage(); t.depth()
+            for i, pnew in enumerate(inp['parent']):
+                want = w.taxa[pnew - 1] if pnew else None
+                if w.taxa[i].parent is not want:
+                    w.taxa[i].parent = want
         r = dict(op=inp['op'], parent=inp['parent'], thr=inp['thr'], report=inp['report'], gt=inp['gt'])
         if inp['op'] == 'one':
             r['d'] = inp['d']
@@ -146,7 +155,29 @@ class RandomDeep(Fam):
                 yield dict(op='sweep', parent=p, thr=thr, report=rep, gt=gt[:1], ds=list(range(0, 7)), via=VIAS[i % 3])
 
 
-FAMILIES = [Sweeps, MultiGenome, RandomDeep]
+class Reparented(Fam):
+    name = 'reparented-between-calls'
+    exhaustive = True
+    rule = ('every ordered pair of distinct forests on 3 taxa (4 in thorough, sampled): classify and walk all lineages on the first, re-parent the '
+            'SAME Taxon objects into the second, then sweep all distance ranks; judged against the second forest')
+
+    def inputs(self, ctx):
+        n = 3 if ctx.tier == 'quick' else 4
+        fs = forests(n)
+        c = 0
+        for p1 in fs:
+            for p2 in fs:
+                if p1 == p2:
+                    continue
+                c += 1
+                if n == 4 and c % 5:
+                    continue
+                for thr in ([2, 1, 0][:n] + [1] * (n - 3), [-1, 2, 1] + [0] * (n - 3), [1, -1, 2] + [2] * (n - 3)):
+                    for t in range(1, n + 1):
+                        yield dict(op='sweep', parent=p2, parent_before=p1, thr=list(thr), report=[bool((c >> i) & 1) for i in range(n)], gt=[t], ds=[0, 1, 2, 3], via=VIAS[c % 3])
+
+
+FAMILIES = [Sweeps, MultiGenome, RandomDeep, Reparented]
 
 
 def run(ctx):
